@@ -86,13 +86,14 @@ def run_maps(ctx, maps, t, res, stream, routes=ROUTES, meta=None):
                     True, "nodes/branches differ from the exact planar arrangement"))
 
 
-SCALES = [(F(1), F(0), 0.01), (F(1), F(0), 0.001), (F(1, 64), F(0), 0.0001), (F(64), F(1000), 0.5), (F(1), F(10**7), 0.01), (F(1, 8), F(1000), 0.001)]
+SCALES = [(F(1), F(0), 0.01), (F(1), F(0), 0.001), (F(1, 64), F(0), 0.0001), (F(64), F(1000), 0.5), (F(1), F(10**7), 0.01), (F(1, 8), F(1000), 0.001),
+          (F(1, 4096), F(0), 0.000001)]  # the last: whole map within a few 1e-3 of everything, threshold far below the package default
 
 
 def s01_arrangement(ctx):
     import_fractopo()
     res = StreamResult("S01-arrangement", rule="random dyadic polylines with planted abutments, accepted only if the Lean oracle classifies the map as valid "
-                       "(margin 50 x snap); box / circle / concave / holed areas; scales 1/64..64, offsets 0..1e7; both entry points; "
+                       "(margin 50 x snap); box / circle / concave / holed areas; scales 1/4096..64, offsets 0..1e7, thresholds 1e-6..0.5; both entry points; "
                        "non-trivial = distinct valid map with at least one X or Y node")
     rng = rng_for(ctx.seed, "S01")
     per = budget(ctx.tier, 25, 600)
